@@ -98,7 +98,8 @@ def factory_only(ctx: Ctx, cg: CallGraph):
 def writer_model(ctx: Ctx):
     prog = ctx.prog
     for name, build in (("kitchen-sink", lambda h, **k: X.build_kitchen_sink(h, **k)),
-                        ("all-defaults", lambda h, **k: h.ev(X.minimal_src(**k), DEF))):
+                        ("all-defaults", lambda h, **k: h.ev(X.minimal_src(**k), DEF)),
+                        ("enumeration keys and character sets", lambda h, **k: h.ev(X.twins_src(X.supported_charsets(h), **k), DEF))):
         site0 = f"{ROOT}::{name}"
         h = X.harness(prog)
         try:
